@@ -1,9 +1,17 @@
 /-
   C02 — rules run in awk order over every input shape, with `$`, `$index` and `$file` bound.
-  The schedule as equations on the rule driver (src/evaluator.go EvalProgram, evalRules,
-  evalPatternRules), valid for every program, state and input.
+  Part 1: the schedule as one-step equations on the rule driver (src/evaluator.go EvalProgram,
+  evalRules, evalPatternRules), valid for every program, state and input.
+  Part 2: the WHOLE schedule — `runProgram` and every layer under it equal the executable
+  specification `Spec/Schedule.lean` (`runProgram_eq_spec`, `evalRules_eq_spec`, …,
+  `processFile_eq_spec`), and the clauses of the property as corollaries: BEGIN once first, END
+  once last unless the run is over, per file / value / selector in the order given, per element
+  in index order, `next` local to one element, `exit` final.
+  Part 3: non-vacuity — concrete runs computed by the kernel with the model AND with the
+  specification (and compared with the Go binary), and instances of the hypotheses.
 -/
 import Jqawk.Model.Driver
+import Jqawk.Lemmas.ScheduleClauses
 
 namespace Jqawk.C02
 open Jqawk
@@ -172,5 +180,741 @@ theorem files_in_order (src : Bytes) (tbl : RuleTable) (sels : List Bytes) (f : 
     (h : processFile prog src tbl sels f (f.data.length + 2) f.data s = .done s1) :
     processFiles prog src tbl sels (f :: rest) s = processFiles prog src tbl sels rest s1 := by
   simp [processFiles, h]
+
+/-! ## Part 2: the whole schedule
+
+  `Spec/Schedule.lean` states the awk schedule as a short executable specification: a run is a
+  sequence of primitive steps (test a pattern, execute a body, evaluate a selector, import a
+  decoded value, bind `$` / `$index` / `$file`), given as parameters; the specification fixes
+  their ORDER and the early-exit discipline (`next` is handled around the rules of one element,
+  around the body of one special rule and around one selector; NOTHING handles the end of the
+  run, so `exit` and errors end it from wherever they occur).  Below: the rule driver of the
+  model — `runProgram` and every layer under it — EQUALS that specification with the model's
+  evaluator plugged in (`modelPrims`), for every program, selector list and input; then the
+  clauses of the property as corollaries. -/
+
+section schedule
+open Jqawk.Sched
+
+variable (src : Bytes) (tbl : RuleTable)
+
+/-! ### the model is the specification -/
+
+/-- **The whole run.**  For every program, program text, rule table, selector list and list of
+    input files the result of `runProgram` — outcome, output, final state — is the result of the
+    schedule specification `runSpec`, unless the evaluator runs out of fuel, in which case BOTH
+    say "out of fuel" (`Agree`).  Why not plain equality: on running out of fuel the model
+    records a state that depends on the layer in which it happened (the state before the
+    file's current value, or no state at all); the specification forgets it; "out of fuel" never
+    counts as a result, so nothing is lost.  The decode loop's own fuel (`bytes + 2`) never runs
+    out (`Sched.decodeOne_progress`: every decoded value consumes at least one byte). -/
+theorem runProgram_eq_spec (sels : List Bytes) (files : List InputFile) :
+    Agree (runProgram prog src tbl sels files)
+      (runSpec (modelPrims prog src tbl) (rulesByKind prog) sels files
+        (newEvaluator prog Heap.empty [] 0)) :=
+  runProgram_agrees prog src tbl sels files
+
+/-- … hence plain equality whenever the specification does not say "out of fuel" … -/
+theorem runProgram_eq_spec_of_fuel (sels : List Bytes) (files : List InputFile)
+    (h : (runSpec (modelPrims prog src tbl) (rulesByKind prog) sels files
+            (newEvaluator prog Heap.empty [] 0)).outcome ≠ .oof) :
+    runProgram prog src tbl sels files =
+      runSpec (modelPrims prog src tbl) (rulesByKind prog) sels files
+        (newEvaluator prog Heap.empty [] 0) :=
+  eq_of_agree (runProgram_eq_spec prog src tbl sels files) h
+
+/-- … and the two run out of fuel together -/
+theorem out_of_fuel_together (sels : List Bytes) (files : List InputFile) :
+    (runProgram prog src tbl sels files).outcome = .oof ↔
+      (runSpec (modelPrims prog src tbl) (rulesByKind prog) sels files
+        (newEvaluator prog Heap.empty [] 0)).outcome = .oof := by
+  rcases runProgram_eq_spec prog src tbl sels files with h | h
+  · rw [h]
+  · exact ⟨fun _ => h.2, fun _ => h.1⟩
+
+/-- layer 1, **one element**: `evalRules` = the rules in source order, each body iff its pattern
+    is absent or truthy, `next` (from a pattern or a body) abandoning the rest (exact, all states) -/
+theorem evalRules_eq_spec (rules : List Rule) :
+    lift src (evalRules prog rules) = runRulesSpec (modelPrims prog src tbl) rules :=
+  Sched.evalRules_eq_spec prog src tbl rules
+
+/-- layer 2, **the elements**: the per-element loop = `each` over the cells with their positions,
+    counting from `i` -/
+theorem evalElems_eq_spec (rules : List Rule) (cells : List CellId) (i : Nat) :
+    lift src (evalElems prog rules cells i) =
+      each (cells.zipIdx i) (elementSpec (modelPrims prog src tbl) rules) :=
+  Sched.evalElems_eq_spec prog src tbl rules cells i
+
+/-- … and `evalPatternRules` on the root being processed = `elementsSpec` -/
+theorem evalPatternRules_eq_spec (rules : List Rule) (root : CellId) (s : St)
+    (hr : s.root = some root) :
+    lift src (evalPatternRules prog rules) s =
+      elementsSpec (modelPrims prog src tbl) rules root s :=
+  Sched.evalPatternRules_eq_spec prog src tbl rules root s hr
+
+/-- layer 3, **BEGIN / END / BEGINFILE / ENDFILE rules**: source order, `$` per rule, `next`
+    finishes the rule, `exit` is the end of the run (`liftFlow` reads `Flow.exit` so) -/
+theorem evalSpecialRules_eq_spec (mk : EM CellId) (rules : List Rule) :
+    liftFlow src (evalSpecialRules prog mk rules) =
+      specialSpec (modelPrims prog src tbl) (lift src mk) rules :=
+  Sched.evalSpecialRules_eq_spec prog src tbl mk rules
+
+/-- layer 4, **one root**: BEGINFILE rules, pattern rules, ENDFILE rules -/
+theorem processRoot_eq_spec (root : CellId) :
+    liftFlow src (processRoot prog root) =
+      rootSpec (modelPrims prog src tbl) (rulesByKind prog) root :=
+  Sched.processRoot_eq_spec prog src tbl root
+
+theorem processRoots_eq_spec (roots : List CellId) :
+    liftFlow src (processRoots prog roots) =
+      each roots (rootSpec (modelPrims prog src tbl) (rulesByKind prog)) :=
+  Sched.processRoots_eq_spec prog src tbl roots
+
+/-- layer 5, **the roots of a value**: one per selector, in the order given -/
+theorem evalSelectors_eq_spec (v : JVal) (sels : List Bytes) (s : St) :
+    ofRoots (evalSelectors tbl v sels [] s) = selectAll (modelPrims prog src tbl) v sels s := by
+  rw [Sched.evalSelectors_eq_spec prog src tbl]
+  simp only [List.reverse_nil, List.nil_append, Sched.bind_pure]
+
+/-- layer 6, **one file**: the values of the stream in order, each as `valueSpec` says; a fault
+    in the stream is a JSON error naming the file, after the values before it -/
+theorem processFile_eq_spec (sels : List Bytes) (file : InputFile) (s : St) :
+    ofStep (processFile prog src tbl sels file (file.data.length + 2) file.data s) =
+      fileSpec (modelPrims prog src tbl) (rulesByKind prog) sels file s :=
+  Sched.processFile_eq_spec prog src tbl sels file s
+
+/-- layer 7, **the files**: in the order given -/
+theorem processFiles_eq_spec (sels : List Bytes) (files : List InputFile) (s : St) :
+    ofStep (processFiles prog src tbl sels files s) =
+      each files (fileSpec (modelPrims prog src tbl) (rulesByKind prog) sels) s :=
+  Sched.processFiles_eq_spec prog src tbl sels files s
+
+/-- the values of a stream, fuel-free: decode one value, the rest of the stream follows; every
+    value consumes at least one byte, so the fuel inside `valuesOf` never runs out -/
+theorem stream_values (name data : Bytes) (t : Json.Tail) :
+    valuesOf ⟨name, data, t⟩ =
+      (match Json.decodeOne numOk data t with
+       | .eof => ([], true)
+       | .error | .needMore => ([], false)
+       | .value v rest => (v :: (valuesOf ⟨name, rest, t⟩).1, (valuesOf ⟨name, rest, t⟩).2)) :=
+  valuesOf_unfold name data t
+
+/-! ### the clauses of the property -/
+
+/-- the cell `$` denotes in BEGIN and END rules: a fresh one per rule, holding null -/
+theorem begin_end_dollar_null (s : St) :
+    ∃ c s', (modelPrims prog src tbl).fresh (.nil none) s = .fine c s' ∧
+      s'.heap.get c = .nil none :=
+  ⟨_, _, rfl, Heap.get_push_new _ _⟩
+
+/-- **BEGIN rules run once, first.**  The schedule starts, from the initial state of the
+    evaluator — no input read, no rule run —, with the BEGIN rules in source order
+    (`specialSpec` = `each`; `rules_partition_order`).  If they complete, every one of them was
+    started exactly once, and everything else — all input, the END rules — runs afterwards, from
+    the state they left (`rest` does not mention the BEGIN rules: they never run again). -/
+theorem begin_runs_once_first (sels : List Bytes) (files : List InputFile) (s1 : St)
+    (hb : specialSpec (modelPrims prog src tbl) ((modelPrims prog src tbl).fresh (.nil none))
+            (rulesOf prog .begin_) (newEvaluator prog Heap.empty [] 0) = .fine () s1) :
+    started (specialRuleSpec (modelPrims prog src tbl) ((modelPrims prog src tbl).fresh (.nil none)))
+        (rulesOf prog .begin_) (newEvaluator prog Heap.empty [] 0) = rulesOf prog .begin_ ∧
+    Agree (runProgram prog src tbl sels files)
+      (report ((do
+        each files (fileSpec (modelPrims prog src tbl) (rulesByKind prog) sels)
+        specialSpec (modelPrims prog src tbl) ((modelPrims prog src tbl).fresh (.nil none))
+          (rulesOf prog .end_) : Run Unit) s1)) := by
+  refine ⟨started_all _ _ _ _ hb, ?_⟩
+  have h := runProgram_eq_spec prog src tbl sels files
+  unfold runSpec at h
+  rw [scheduleSpec_def, bind_fine (show specialSpec _ _ (rulesByKind prog).begin_ _ = _ from hb)] at h
+  exact h
+
+/-- … and if a BEGIN rule ends the run (`exit`: `o = .ok`; or an error), that is the result: no
+    input is read, no END rule runs (neither `files` nor the END rules occur on the right) -/
+theorem begin_ends_run (sels : List Bytes) (files : List InputFile) (o : Outcome) (s1 : St)
+    (ho : o ≠ .oof)
+    (hb : specialSpec (modelPrims prog src tbl) ((modelPrims prog src tbl).fresh (.nil none))
+            (rulesOf prog .begin_) (newEvaluator prog Heap.empty [] 0) = .over o s1) :
+    runProgram prog src tbl sels files = finishRun o s1 :=
+  runProgram_of_over prog src tbl sels files o s1 ho
+    (schedule_over_begin _ (rulesByKind prog) sels files _ s1 o hb)
+
+/-- **END rules run once, last — unless the run is over.**  When the BEGIN rules and all the
+    input completed (`s2` = the state they left), the run is exactly what the END rules, in
+    source order from `s2`, leave: each at most once (`started_prefix`), all of them exactly once
+    if they complete (`started_all`), and nothing runs after them. -/
+theorem end_runs_once_last (sels : List Bytes) (files : List InputFile) (s1 s2 : St)
+    (hb : specialSpec (modelPrims prog src tbl) ((modelPrims prog src tbl).fresh (.nil none))
+            (rulesOf prog .begin_) (newEvaluator prog Heap.empty [] 0) = .fine () s1)
+    (hin : each files (fileSpec (modelPrims prog src tbl) (rulesByKind prog) sels) s1 = .fine () s2) :
+    Agree (runProgram prog src tbl sels files)
+      (report (specialSpec (modelPrims prog src tbl) ((modelPrims prog src tbl).fresh (.nil none))
+        (rulesOf prog .end_) s2)) := by
+  have h := runProgram_eq_spec prog src tbl sels files
+  unfold runSpec at h
+  rw [schedule_end_last _ (rulesByKind prog) sels files _ s1 s2 hb hin] at h
+  exact h
+
+/-- **… unless `exit`**: when the input ends the run — `exit` anywhere in it (`o = .ok`), or an
+    error — the run ends there: the END rules do not run (they do not occur on the right; the
+    output is what had been written in `s2`) -/
+theorem end_skipped_when_over (sels : List Bytes) (files : List InputFile) (o : Outcome) (s1 s2 : St)
+    (ho : o ≠ .oof)
+    (hb : specialSpec (modelPrims prog src tbl) ((modelPrims prog src tbl).fresh (.nil none))
+            (rulesOf prog .begin_) (newEvaluator prog Heap.empty [] 0) = .fine () s1)
+    (hin : each files (fileSpec (modelPrims prog src tbl) (rulesByKind prog) sels) s1 = .over o s2) :
+    runProgram prog src tbl sels files = finishRun o s2 := by
+  apply runProgram_of_over prog src tbl sels files o s2 ho
+  rw [scheduleSpec_def, bind_fine (show specialSpec _ _ (rulesByKind prog).begin_ _ = _ from hb),
+    bind_over _ hin]
+
+/-- **END rules once, last, unless `exit`** — the two cases in one statement: after the BEGIN
+    rules, whatever the input does decides: if it completes (`s2`), the run is what the END rules
+    leave from `s2`; if it ends the run (`exit`: `o = .ok`, or an error) in `s2`, that is the
+    result and the END rules do not run -/
+theorem end_runs_once_last_unless_exit (sels : List Bytes) (files : List InputFile) (s1 : St)
+    (hb : specialSpec (modelPrims prog src tbl) ((modelPrims prog src tbl).fresh (.nil none))
+            (rulesOf prog .begin_) (newEvaluator prog Heap.empty [] 0) = .fine () s1) :
+    match each files (fileSpec (modelPrims prog src tbl) (rulesByKind prog) sels) s1 with
+    | .fine () s2 =>
+      Agree (runProgram prog src tbl sels files)
+        (report (specialSpec (modelPrims prog src tbl) ((modelPrims prog src tbl).fresh (.nil none))
+          (rulesOf prog .end_) s2))
+    | .over o s2 => o ≠ .oof → runProgram prog src tbl sels files = finishRun o s2
+    | _ => True := by
+  cases hin : each files (fileSpec (modelPrims prog src tbl) (rulesByKind prog) sels) s1 with
+  | fine u s2 => exact end_runs_once_last prog src tbl sels files s1 s2 hb hin
+  | over o s2 => exact fun ho => end_skipped_when_over prog src tbl sels files o s1 s2 ho hb hin
+  | next s2 => trivial
+  | oof => trivial
+
+/-- **Array root: once per element, in index order, `$` = the element, `$index` = its
+    position.**  The pass over an array root is `each` over the element cells the array holds
+    when the pass starts, paired with their positions 0, 1, 2, … — so the elements for which the
+    rules were started form an initial segment of that list (index order, each at most once), and
+    all of it if the pass completed. -/
+theorem elements_in_index_order (rules : List Rule) (s : St) (root : CellId) (a : ArrId)
+    (hr : s.root = some root) (ha : s.heap.get root = .arr a) :
+    lift src (evalPatternRules prog rules) s =
+      each (s.heap.arr a).toList.zipIdx (elementSpec (modelPrims prog src tbl) rules) s ∧
+    started (elementSpec (modelPrims prog src tbl) rules) (s.heap.arr a).toList.zipIdx s
+      <+: (s.heap.arr a).toList.zipIdx ∧
+    (∀ s', lift src (evalPatternRules prog rules) s = .fine () s' →
+      started (elementSpec (modelPrims prog src tbl) rules) (s.heap.arr a).toList.zipIdx s
+        = (s.heap.arr a).toList.zipIdx) := by
+  have he : lift src (evalPatternRules prog rules) s =
+      each (s.heap.arr a).toList.zipIdx (elementSpec (modelPrims prog src tbl) rules) s := by
+    rw [evalPatternRules_eq_spec prog src tbl rules root s hr]
+    apply elementsSpec_array
+    rw [elements_model, ha]
+  exact ⟨he, started_prefix _ _ _, fun s' h => started_all _ _ _ s' (he ▸ h)⟩
+
+/-- … with, for the element `cell` at position `i`: `$` denoting the element's own cell and
+    `$index` resolving to a cell that holds `i`, when its rules start -/
+theorem element_dollar_and_index (rules : List Rule) (cell : CellId) (i : Nat) (s : St)
+    (f : Frame) (fs : List Frame) (hf : s.frames = f :: fs) :
+    ∃ s', elementSpec (modelPrims prog src tbl) rules (cell, i) s =
+        runRulesSpec (modelPrims prog src tbl) rules s' ∧
+      s'.ruleRoot = some cell ∧
+      ∃ ic, lookupFrames s'.frames b!"$index" = some ic ∧ s'.heap.get ic = .num (F64.ofNat i) := by
+  obtain ⟨s', h, hrr, hidx⟩ := element_bindings prog src tbl cell i s f fs hf
+  refine ⟨s', ?_, hrr, hidx⟩
+  rw [elementSpec_def, ← Sched.bind_assoc, bind_fine h]
+
+/-- **Any other root: exactly once, `$` = the root** -/
+theorem other_root_once (rules : List Rule) (s : St) (root : CellId)
+    (hr : s.root = some root) (ha : ∀ a, s.heap.get root ≠ .arr a) :
+    lift src (evalPatternRules prog rules) s =
+      runRulesSpec (modelPrims prog src tbl) rules { s with ruleRoot := some root } := by
+  rw [evalPatternRules_eq_spec prog src tbl rules root s hr]
+  have he : (modelPrims prog src tbl).elements root s = .fine none s := by
+    rw [elements_model]
+    cases hg : s.heap.get root <;> first | rfl | exact absurd hg (ha _)
+  rw [elementsSpec_other _ rules root s s he]
+  rfl
+
+/-- **Each root selector, in the order given, per value.**  With selectors, the roots of a
+    decoded value are selected by evaluating the selectors in the order given (`SelectsTo`: one
+    root per selector, in selector order; a selector that executes `next` contributes none) —
+    all of them before any rule runs for this value —, and then the roots are processed in that
+    order (`valueSpec` = `$file`, the roots, `each roots rootSpec`). -/
+theorem selectors_in_order_per_value (sels : List Bytes) (hsels : sels ≠ []) (file : InputFile)
+    (v : JVal) (s s' : St) (roots : List CellId) :
+    (rootsSpec (modelPrims prog src tbl) sels v s = .fine roots s' ↔
+      SelectsTo (modelPrims prog src tbl) v sels s roots s') ∧
+    valueSpec (modelPrims prog src tbl) (rulesByKind prog) sels file v =
+      (do (modelPrims prog src tbl).setFile file.name
+          let roots ← rootsSpec (modelPrims prog src tbl) sels v
+          each roots (rootSpec (modelPrims prog src tbl) (rulesByKind prog))) := by
+  refine ⟨?_, rfl⟩
+  unfold rootsSpec
+  have : sels.isEmpty = false := by cases sels <;> simp_all
+  simp only [this, Bool.false_eq_true, ↓reduceIte]
+  exact selectAll_fine_iff _ v sels s s' roots
+
+/-- without selectors the value itself is the one root -/
+theorem no_selector_one_root (v : JVal) :
+    rootsSpec (modelPrims prog src tbl) [] v =
+      (do let c ← (modelPrims prog src tbl).load v; pure [c]) := rfl
+
+/-- **`$file` names the current file** when the roots of a value are selected and its rules run
+    (the driver runs with the single root frame) -/
+theorem file_named (name : Bytes) (s : St) (f : Frame) (hf : s.frames = [f]) :
+    ∃ s', (modelPrims prog src tbl).setFile name s = .fine () s' ∧
+      ∃ c, lookupFrames s'.frames b!"$file" = some c ∧ s'.heap.get c = .str name none :=
+  file_binding prog src tbl name s f hf
+
+/-- **A rule without a body prints `$`.**  The parser gives such a rule the body `print` without
+    arguments (src/parser.go:895-905; see the example at the end), and that statement writes the
+    rendering of the cell `$` denotes, and a newline -/
+theorem bodyless_rule_prints_dollar (n : Nat) (t : Token) (s : St) :
+    evalStmt prog (n + 2) (.print t []) s =
+      (match s.ruleRoot with
+       | none => throwPanic "print without a rule root" s
+       | some c =>
+         match prettyTop s.heap (s.heap.get c) with
+         | none => .oof
+         | some r => emit (r ++ [10]) s) := by
+  simp only [evalStmt, evalExprList, bind, EM.bind, pure, EM.pure, getSt, List.isEmpty_nil, ↓reduceIte]
+  cases s.ruleRoot with
+  | none => rfl
+  | some c =>
+    simp only
+    cases prettyTop s.heap (s.heap.get c) <;> rfl
+
+/-- **`next` abandons the remaining rules for that element only.**  Element `cell` at position
+    `i`; the rules `pre` complete, rule `r` executes `next` (in its pattern or its body): the
+    rules `post` — arbitrary — do not run for this element, and the pass goes on with the next
+    element (`cells`, position `i + 1`), for which all the rules run again, from the state in
+    which `next` was executed. -/
+theorem next_affects_one_element (pre post : List Rule) (r : Rule) (cell : CellId) (i : Nat)
+    (cells : List CellId) (s s1 s2 : St)
+    (hpre : (do (modelPrims prog src tbl).setDollar cell
+                (modelPrims prog src tbl).setIndex i
+                each pre (ruleSpec (modelPrims prog src tbl)) : Run Unit) s = .fine () s1)
+    (hr : ruleSpec (modelPrims prog src tbl) r s1 = .next s2) :
+    lift src (evalElems prog (pre ++ r :: post) (cell :: cells) i) s =
+      lift src (evalElems prog (pre ++ r :: post) cells (i + 1)) s2 := by
+  rw [evalElems_eq_spec, evalElems_eq_spec, List.zipIdx_cons]
+  apply each_fine_step
+  rw [elementSpec_def]
+  -- the setup steps end normally (otherwise `hpre` could not hold)
+  simp only [bind_def] at hpre ⊢
+  cases hd : (modelPrims prog src tbl).setDollar cell s with
+  | fine u sa =>
+    rw [hd] at hpre
+    simp only at hpre ⊢
+    cases hi : (modelPrims prog src tbl).setIndex i sa with
+    | fine u sb =>
+      rw [hi] at hpre
+      simp only at hpre ⊢
+      exact rules_next _ pre post r sb s1 s2 hpre hr
+    | next _ => rw [hi] at hpre; cases hpre
+    | over _ _ => rw [hi] at hpre; cases hpre
+    | oof => rw [hi] at hpre; cases hpre
+  | next _ => rw [hd] at hpre; cases hpre
+  | over _ _ => rw [hd] at hpre; cases hpre
+  | oof => rw [hd] at hpre; cases hpre
+
+/-- `next` in the body of a rule whose pattern is absent is such a `next` … -/
+theorem next_in_body (r : Rule) (s1 s2 : St) (hp : r.pattern = none)
+    (hb : evalStmt prog evalFuel r.body s1 = .err (.sig .next) s2) :
+    ruleSpec (modelPrims prog src tbl) r s1 = .next s2 := by
+  rw [ruleSpec_model, hp]
+  simp only [lift_def, hb]
+
+/-- … and `exit` in such a body is the end of the run -/
+theorem exit_in_body (r : Rule) (s1 s2 : St) (hp : r.pattern = none)
+    (hb : evalStmt prog evalFuel r.body s1 = .err (.sig .exit) s2) :
+    ruleSpec (modelPrims prog src tbl) r s1 = .over .ok s2 := by
+  rw [ruleSpec_model, hp]
+  simp only [lift_def, hb]
+
+/-- **`exit` ends the whole run immediately and successfully.**  If anywhere in the schedule a
+    step ends the run with `exit` — the schedule is `over .ok` in the state `s'` in which `exit`
+    was executed —, the run reports success and its final state IS `s'`: its output is exactly
+    what had been written at that moment; no further rule ran, END included.  (That the end of
+    the run at any position of any layer makes the whole schedule `over` there is
+    `exit_propagates` below.) -/
+theorem exit_runs_nothing_more (sels : List Bytes) (files : List InputFile) (s' : St)
+    (h : scheduleSpec (modelPrims prog src tbl) (rulesByKind prog) sels files
+          (newEvaluator prog Heap.empty [] 0) = .over .ok s') :
+    runProgram prog src tbl sels files = finishRun .ok s' :=
+  runProgram_of_over prog src tbl sels files .ok s' (by intro h'; cases h') h
+
+/-- `next` never reaches the top of the schedule (it is handled around the rules of one element,
+    around one special rule's body, around one selector): the run never reports it — the `next`
+    line of `report` is dead, for every program -/
+theorem next_never_escapes (sels : List Bytes) (files : List InputFile) (s s' : St) :
+    scheduleSpec (modelPrims prog src tbl) (rulesByKind prog) sels files s ≠ .next s' :=
+  schedule_never_next prog src tbl sels files s s'
+
+/-- the end of the run (`exit`, or an error) propagates through every layer of the schedule,
+    for ANY primitive steps: whatever would follow — later rules for the element (`postR`),
+    later elements, ENDFILE rules, later roots, later values, a later stream fault, later files
+    (`postF`), END rules — does not run.  Here for `exit` (or an error) in pattern rule `r` on a
+    non-array root (`elements` = none) that is the `k`-th root of the value `v`, a value of file
+    `f`; all the "post" lists are arbitrary and do not occur in the result. -/
+theorem exit_propagates (P : Prims) (R : RuleSets) (sels : List Bytes) (o : Outcome)
+    -- the position
+    (preF postF : List InputFile) (f : InputFile)
+    (preV postV : List JVal) (v : JVal) (clean : Bool) (hvals : P.values f = (preV ++ v :: postV, clean))
+    (preRoots postRoots : List CellId) (root : CellId)
+    (preR postR : List Rule) (r : Rule) (hrules : R.pattern = preR ++ r :: postR)
+    -- the states passed through
+    (s0 s1 s2 s3 s4 s5 s6 s7 s8 s9 s10 s11 s12 : St) (val : Val)
+    (hbegin : specialSpec P (P.fresh (.nil none)) R.begin_ s0 = .fine () s1)
+    (hfiles : each preF (fileSpec P R sels) s1 = .fine () s2)
+    (hvalues : each preV (valueSpec P R sels f) s2 = .fine () s3)
+    (hfile : P.setFile f.name s3 = .fine () s4)
+    (hroots : rootsSpec P sels v s4 = .fine (preRoots ++ root :: postRoots) s5)
+    (hpreRoots : each preRoots (rootSpec P R) s5 = .fine () s6)
+    (hread : P.read root s6 = .fine val s7)
+    (hbf : specialSpec P (pure root) R.beginFile s7 = .fine () s8)
+    (hsetRoot : P.setRoot root s8 = .fine () s9)
+    (hel : P.elements root s9 = .fine none s10)
+    (hdollar : P.setDollar root s10 = .fine () s11)
+    (hpreR : each preR (ruleSpec P) s11 = .fine () s12)
+    (s' : St) (hexit : ruleSpec P r s12 = .over o s') :
+    scheduleSpec P R sels (preF ++ f :: postF) s0 = .over o s' := by
+  apply schedule_over_input P R sels preF postF f s0 s1 s2 s' o hbegin hfiles
+  apply file_over P R sels f preV postV v clean hvals s2 s3 s' o hvalues
+  apply value_over P R sels f v preRoots postRoots root s3 s4 s5 s6 s' o hfile hroots hpreRoots
+  apply root_over_pattern P R root s6 s7 s8 s9 s' val o hread hbf hsetRoot
+  rw [elementsSpec_other P R.pattern root s9 s10 hel, bind_fine hdollar, hrules]
+  exact rules_over P preR postR r s11 s12 s' o hpreR hexit
+
+end schedule
+
+/-! ## Non-vacuity: concrete runs (several files, JSON Lines, selectors, `next`, `exit`)
+
+  Each run below is computed twice by the kernel — by the model's driver (`modelRun`) and by
+  the schedule specification (`specRun`) — and compared with the output of the Go binary
+  (built from the committed source) on the same program, selectors and files. -/
+
+section examples
+open Jqawk.Sched
+
+/-- the program a source text parses to -/
+def demo (src : Bytes) : Program :=
+  match parseProgramSrc expectedRuleTable src with
+  | .ok p => p
+  | _ => Program.empty
+
+/-- what a run reports: the kind of outcome and the output -/
+def view (r : RunResult) : Bytes × Bytes :=
+  (match r.outcome with
+   | .ok => b!"ok"
+   | .runtimeErr _ _ _ => b!"runtime error"
+   | .jsonErr f => b!"json error in " ++ f
+   | .syntaxErr _ _ => b!"syntax error"
+   | _ => b!"other", r.out)
+
+def modelRun (src : Bytes) (sels : List Bytes) (files : List InputFile) : Bytes × Bytes :=
+  view (runProgram (demo src) src expectedRuleTable sels files)
+
+def specRun (src : Bytes) (sels : List Bytes) (files : List InputFile) : Bytes × Bytes :=
+  view (runSpec (modelPrims (demo src) src expectedRuleTable) (rulesByKind (demo src)) sels files
+    (newEvaluator (demo src) Heap.empty [] 0))
+
+/-- every kind of rule twice or more, in mixed order of kinds is exercised by `progX` below; here:
+    two BEGIN, one BEGINFILE, three pattern rules (one with a pattern, one with `next`), one
+    ENDFILE, two END rules -/
+def progA : Bytes := b!"BEGIN { print \"B1\", $ } BEGIN { print \"B2\" } BEGINFILE { print \"bf\", $file, $ } $ > 1 { print \"hit\", $index, $ } { if ($ == 3) next; print \"r2\", $ } { print \"r3\", $ } ENDFILE { print \"ef\", $ } END { print \"E1\", $ } END { print \"E2\" }"
+
+/-- two files; the first holds two JSON values (an array, then a scalar), the second an EMPTY
+    array and a scalar -/
+def filesA : List InputFile := [⟨b!"a", b!"[1,3] 2", .eof⟩, ⟨b!"b", b!"[]  7", .eof⟩]
+
+def outA : Bytes := b!"B1 null\nB2\nbf a [1, 3]\nr2 1\nr3 1\nhit 1 3\nef [1, 3]\nbf a 2\nhit 1 2\nr2 2\nr3 2\nef 2\nbf b []\nef []\nbf b 7\nhit 1 7\nr2 7\nr3 7\nef 7\nE1 null\nE2\n"
+
+/-- BEGIN once first (`$` null), per file / value: BEGINFILE (`$` the root, `$file`), pattern
+    rules per element in index order (`$index`) or once, `next` for one element, ENDFILE; an
+    empty array root runs no pattern rule; END once last — model and specification agree with Go -/
+example : modelRun progA [] filesA = (b!"ok", outA) := by decide +kernel
+example : specRun progA [] filesA = (b!"ok", outA) := by decide +kernel
+
+/-- … and with two root selectors: per value one root per selector, in the order given -/
+def filesB : List InputFile :=
+  [⟨b!"c", b!"{\"x\":[1,2],\"y\":7} {\"x\":3,\"y\":[4]}", .eof⟩, ⟨b!"d", b!"{\"x\":0,\"y\":[]}", .eof⟩]
+def outB : Bytes := b!"B1 null\nB2\nbf c [1, 2]\nr2 1\nr3 1\nhit 1 2\nr2 2\nr3 2\nef [1, 2]\nbf c 7\nhit 1 7\nr2 7\nr3 7\nef 7\nbf c 3\nhit 1 3\nef 3\nbf c [4]\nhit 0 4\nr2 4\nr3 4\nef [4]\nbf d 0\nr2 0\nr3 0\nef 0\nbf d []\nef []\nE1 null\nE2\n"
+example : modelRun progA [b!"$.x", b!"$.y"] filesB = (b!"ok", outB) := by decide +kernel
+example : specRun progA [b!"$.x", b!"$.y"] filesB = (b!"ok", outB) := by decide +kernel
+
+/-- `next` in the second of four pattern rules (element 2 only: elements 1 and 3 get all the
+    rules); `exit` in the third rule on the first element of the second file: no further rule
+    for that element, no further element, no ENDFILE rule, no further value, no END rule —
+    and the run is a success -/
+def progX : Bytes := b!"BEGIN { print \"B\" } { print \"r1\", $ } $ == 2 { next } $ == 4 { exit } { print \"r3\", $ } ENDFILE { print \"ef\" } END { print \"E\" }"
+def filesX : List InputFile := [⟨b!"e", b!"[1,2,3]", .eof⟩, ⟨b!"f", b!"[4,5] 6", .eof⟩]
+def outX : Bytes := b!"B\nr1 1\nr3 1\nr1 2\nr1 3\nr3 3\nef\nr1 4\n"
+example : modelRun progX [] filesX = (b!"ok", outX) := by decide +kernel
+example : specRun progX [] filesX = (b!"ok", outX) := by decide +kernel
+
+/-- `exit` in the first BEGIN rule: nothing else runs -/
+example : modelRun b!"BEGIN { print \"B\"; exit } BEGIN { print \"B2\" } { print } END { print \"E\" }" []
+    [⟨b!"e", b!"[1,2,3]", .eof⟩] = (b!"ok", b!"B\n") := by decide +kernel
+
+/-- `next` in a BEGIN rule just finishes that rule; `exit` in the first END rule skips the second -/
+example : modelRun b!"BEGIN { print \"a\"; next; print \"b\" } BEGIN { print \"c\" } END { print \"E1\"; exit } END { print \"E2\" }" []
+    [⟨b!"e", b!"[1,2,3]", .eof⟩] = (b!"ok", b!"a\nc\nE1\n") := by decide +kernel
+
+/-- `next` in a root selector skips that root (no rule runs for the value 1), `exit` in a
+    selector ends the run (value 2; the value 4 is never read, END does not run) -/
+def selNX : Bytes := b!"match ($) { 1 => { next } 2 => { exit } x => x }"
+example : modelRun b!"{ print \"v\", $ } END { print \"E\" }" [selNX] [⟨b!"g", b!"1 3 2 4", .eof⟩]
+    = (b!"ok", b!"v 3\n") := by decide +kernel
+example : specRun b!"{ print \"v\", $ } END { print \"E\" }" [selNX] [⟨b!"g", b!"1 3 2 4", .eof⟩]
+    = (b!"ok", b!"v 3\n") := by decide +kernel
+
+/-- a fault in the second file's stream: the values before it are processed, then the JSON
+    error names that file; END does not run -/
+example : modelRun b!"{ print \"v\", $ } END { print \"E\" }" []
+    [⟨b!"e", b!"[1,2,3]", .eof⟩, ⟨b!"h", b!"[1] ] [2]", .eof⟩]
+    = (b!"json error in h", b!"v 1\nv 2\nv 3\nv 1\n") := by decide +kernel
+example : specRun b!"{ print \"v\", $ } END { print \"E\" }" []
+    [⟨b!"e", b!"[1,2,3]", .eof⟩, ⟨b!"h", b!"[1] ] [2]", .eof⟩]
+    = (b!"json error in h", b!"v 1\nv 2\nv 3\nv 1\n") := by decide +kernel
+
+/-- a rule without a body prints `$` -/
+example : (match (demo b!"$ > 1").rules with
+    | [r] => (match r.pattern, r.body with
+              | some _, .print _ [] => true
+              | _, _ => false)
+    | _ => false) = true := by decide +kernel
+example : modelRun b!"$ > 1" [] [⟨b!"e", b!"[1,2,3]", .eof⟩] = (b!"ok", b!"2\n3\n") := by
+  decide +kernel
+
+/-- `stream_values`: the values of a JSON Lines stream, and a stream with a fault -/
+example : ((valuesOf ⟨b!"f", b!"[4,5] 6", .eof⟩).1.length, (valuesOf ⟨b!"f", b!"[4,5] 6", .eof⟩).2)
+    = (2, true) := by decide +kernel
+example : ((valuesOf ⟨b!"h", b!"[1] ] [2]", .eof⟩).1.length, (valuesOf ⟨b!"h", b!"[1] ] [2]", .eof⟩).2)
+    = (1, false) := by decide +kernel
+
+/-! ### instances of the hypotheses of the theorems above -/
+
+/-- observers on the end of a piece of the schedule (decidable, so that the kernel can check them) -/
+def stOf {α : Type} : Ended α → St
+  | .fine _ s => s
+  | .next s => s
+  | .over _ s => s
+  | .oof => default
+def valOf {α : Type} : Ended α → Option α
+  | .fine a _ => some a
+  | _ => none
+def isFine {α : Type} : Ended α → Bool
+  | .fine _ _ => true
+  | _ => false
+def isNext {α : Type} : Ended α → Bool
+  | .next _ => true
+  | _ => false
+def isExit {α : Type} : Ended α → Bool
+  | .over .ok _ => true
+  | _ => false
+
+theorem fine_of {r : Ended Unit} (h : isFine r = true) : r = .fine () (stOf r) := by
+  cases r <;> first | rfl | cases h
+theorem fineVal_of {α : Type} {r : Ended α} {a : α} (h : valOf r = some a) : r = .fine a (stOf r) := by
+  cases r <;> first | (cases h; rfl) | cases h
+theorem next_of {α : Type} {r : Ended α} (h : isNext r = true) : r = .next (stOf r) := by
+  cases r <;> first | rfl | cases h
+theorem exit_of {α : Type} {r : Ended α} (h : isExit r = true) : r = .over .ok (stOf r) := by
+  cases r with
+  | over o s => cases o <;> first | rfl | cases h
+  | _ => cases h
+
+theorem split_getD {α : Type} (l : List α) (k : Nat) (d : α) (h : k < l.length) :
+    l = l.take k ++ l.getD k d :: l.drop (k + 1) := by
+  induction l generalizing k with
+  | nil => cases h
+  | cons x xs ih =>
+    cases k with
+    | zero => rfl
+    | succ k =>
+      simp only [List.take_succ_cons, List.drop_succ_cons, List.cons_append, List.getD_cons_succ]
+      rw [← ih k (by simpa using h)]
+
+/-- `progX` with its primitive steps, rule sets and initial state -/
+def PX : Prims := modelPrims (demo progX) progX expectedRuleTable
+def RX : RuleSets := rulesByKind (demo progX)
+def initX : St := newEvaluator (demo progX) Heap.empty [] 0
+/-- the state after the BEGIN rules of `progX` -/
+def afterBeginX : St := stOf (specialSpec PX (PX.fresh (.nil none)) (rulesOf (demo progX) .begin_) initX)
+
+/-- `begin_runs_once_first`: the BEGIN rules of `progX` complete -/
+example : specialSpec PX (PX.fresh (.nil none)) (rulesOf (demo progX) .begin_) initX
+    = .fine () afterBeginX := fine_of (by decide +kernel)
+
+/-- `begin_ends_run`: `exit` in a BEGIN rule ends the BEGIN rules with `over .ok` -/
+example : ∃ s1, specialSpec (modelPrims (demo b!"BEGIN { print \"B\"; exit } BEGIN { print \"B2\" }")
+      b!"BEGIN { print \"B\"; exit } BEGIN { print \"B2\" }" expectedRuleTable)
+    ((modelPrims (demo b!"BEGIN { print \"B\"; exit } BEGIN { print \"B2\" }")
+      b!"BEGIN { print \"B\"; exit } BEGIN { print \"B2\" }" expectedRuleTable).fresh (.nil none))
+    (rulesOf (demo b!"BEGIN { print \"B\"; exit } BEGIN { print \"B2\" }") .begin_)
+    (newEvaluator (demo b!"BEGIN { print \"B\"; exit } BEGIN { print \"B2\" }") Heap.empty [] 0)
+    = .over .ok s1 := ⟨_, exit_of (by decide +kernel)⟩
+
+/-- `end_runs_once_last`: all the input of `progX` on its first file alone completes -/
+example : ∃ s2, each (filesX.take 1) (fileSpec PX RX []) afterBeginX = .fine () s2 :=
+  ⟨_, fine_of (by decide +kernel)⟩
+
+/-- `end_skipped_when_over`, `exit_runs_nothing_more`: on both files the input of `progX` ends
+    the run with `exit`, and so does the whole schedule -/
+example : ∃ s2, each filesX (fileSpec PX RX []) afterBeginX = .over .ok s2 :=
+  ⟨_, exit_of (by decide +kernel)⟩
+example : ∃ s', scheduleSpec PX RX [] filesX initX = .over .ok s' := ⟨_, exit_of (by decide +kernel)⟩
+
+/-- a state in which the array root `[1, 2, 3]` is being processed … -/
+def arrStateX : St :=
+  stOf ((do let c ← PX.load (.arr [.num b!"1", .num b!"2", .num b!"3"]); PX.setRoot c : Run Unit) afterBeginX)
+/-- … and one with the scalar root `7` -/
+def numStateX : St := stOf ((do let c ← PX.load (.num b!"7"); PX.setRoot c : Run Unit) afterBeginX)
+
+def isArr : Val → Bool
+  | .arr _ => true
+  | _ => false
+
+/-- `elements_in_index_order`: its hypotheses hold in `arrStateX` -/
+example : ∃ root a, arrStateX.root = some root ∧ arrStateX.heap.get root = .arr a := by
+  have h : (match arrStateX.root with
+      | some r => isArr (arrStateX.heap.get r)
+      | none => false) = true := by decide +kernel
+  cases hr : arrStateX.root with
+  | none => rw [hr] at h; cases h
+  | some r =>
+    rw [hr] at h
+    simp only at h
+    cases hg : arrStateX.heap.get r with
+    | arr a => exact ⟨r, a, rfl, hg⟩
+    | _ => rw [hg] at h; cases h
+
+/-- `other_root_once`: its hypotheses hold in `numStateX` -/
+example : ∃ root, numStateX.root = some root ∧ ∀ a, numStateX.heap.get root ≠ .arr a := by
+  have h : (match numStateX.root with
+      | some r => !isArr (numStateX.heap.get r)
+      | none => false) = true := by decide +kernel
+  cases hr : numStateX.root with
+  | none => rw [hr] at h; cases h
+  | some r =>
+    rw [hr] at h
+    simp only at h
+    refine ⟨r, rfl, fun a ha => ?_⟩
+    rw [ha] at h
+    cases h
+
+/-- `element_dollar_and_index`, `file_named`: the driver's states have the single root frame -/
+example : ∃ f, initX.frames = [f] := ⟨_, rfl⟩
+
+/-- `selectors_in_order_per_value`: two selectors on one value select two roots, in order -/
+example : ∃ r1 r2 s', rootsSpec PX [b!"$.x", b!"$.y"] (.obj [(b!"x", .num b!"1"), (b!"y", .num b!"2")])
+    afterBeginX = .fine [r1, r2] s' := by
+  have h : ((valOf (rootsSpec PX [b!"$.x", b!"$.y"]
+      (.obj [(b!"x", .num b!"1"), (b!"y", .num b!"2")]) afterBeginX)).map List.length) = some 2 := by
+    decide +kernel
+  cases hr : rootsSpec PX [b!"$.x", b!"$.y"] (.obj [(b!"x", .num b!"1"), (b!"y", .num b!"2")]) afterBeginX with
+  | fine roots s' =>
+    rw [hr] at h
+    match roots, h with
+    | [r1, r2], _ => exact ⟨r1, r2, s', rfl⟩
+  | next s' => rw [hr] at h; cases h
+  | over o s' => rw [hr] at h; cases h
+  | oof => rw [hr] at h; cases h
+
+/-- the pattern rules of `progX`: `{ print "r1", $ }`, `$ == 2 { next }`, `$ == 4 { exit }`,
+    `{ print "r3", $ }` -/
+def rulesX : List Rule := rulesOf (demo progX) .pattern
+theorem rulesX_split : rulesX = rulesX.take 1 ++ rulesX.getD 1 default :: rulesX.drop 2 :=
+  split_getD rulesX 1 default (by decide +kernel)
+
+/-- the state in which the rules start on the second element (the number 2) of `[1, 2, 3]` … -/
+def cell2X : CellId := ((arrStateX.heap.arr (match arrStateX.root with
+  | some r => (match arrStateX.heap.get r with | .arr a => a | _ => 0)
+  | none => 0)).toList).getD 1 0
+/-- … after the first rule has run on it -/
+def midX : St := stOf ((do PX.setDollar cell2X; PX.setIndex 1; each (rulesX.take 1) (ruleSpec PX) : Run Unit) arrStateX)
+
+/-- `next_affects_one_element`: the first rule completes on the element 2, the second rule
+    (`$ == 2 { next }`) executes `next` -/
+example : (do PX.setDollar cell2X; PX.setIndex 1; each (rulesX.take 1) (ruleSpec PX) : Run Unit) arrStateX
+    = .fine () midX := fine_of (by decide +kernel)
+example : ∃ s2, ruleSpec PX (rulesX.getD 1 default) midX = .next s2 := ⟨_, next_of (by decide +kernel)⟩
+
+/-- `next_in_body`, `exit_in_body`: rules without a pattern whose bodies execute `next` / `exit` -/
+example : ∃ r s2, r ∈ (demo b!"{ next }").rules ∧ r.pattern = none ∧
+    evalStmt (demo b!"{ next }") evalFuel r.body afterBeginX = .err (.sig .next) s2 := by
+  have h : (match (demo b!"{ next }").rules with
+      | [r] => (match r.pattern, evalStmt (demo b!"{ next }") evalFuel r.body afterBeginX with
+                | none, .err (.sig .next) _ => true
+                | _, _ => false)
+      | _ => false) = true := by decide +kernel
+  match hr : (demo b!"{ next }").rules, h with
+  | [r], h =>
+    refine ⟨r, ?_⟩
+    simp only at h
+    split at h
+    · rename_i s2 hp he
+      exact ⟨s2, by simp, hp, he⟩
+    · cases h
+example : ∃ r s2, r ∈ (demo b!"{ exit }").rules ∧ r.pattern = none ∧
+    evalStmt (demo b!"{ exit }") evalFuel r.body afterBeginX = .err (.sig .exit) s2 := by
+  have h : (match (demo b!"{ exit }").rules with
+      | [r] => (match r.pattern, evalStmt (demo b!"{ exit }") evalFuel r.body afterBeginX with
+                | none, .err (.sig .exit) _ => true
+                | _, _ => false)
+      | _ => false) = true := by decide +kernel
+  match hr : (demo b!"{ exit }").rules, h with
+  | [r], h =>
+    refine ⟨r, ?_⟩
+    simp only at h
+    split at h
+    · rename_i s2 hp he
+      exact ⟨s2, by simp, hp, he⟩
+    · cases h
+
+/-! `exit_propagates`: `progX` on the files `e` = `[1,2,3]` and `f` = `3 4 5` (JSON Lines); the
+    rule `$ == 4 { exit }` ends the run on the second value of the second file.  All the
+    hypotheses of the theorem hold (each state is the one the previous step left): -/
+def fileE : InputFile := ⟨b!"e", b!"[1,2,3]", .eof⟩
+def fileF : InputFile := ⟨b!"f", b!"3 4 5", .eof⟩
+def valsF : List JVal := (PX.values fileF).1
+def st1 : St := stOf (specialSpec PX (PX.fresh (.nil none)) RX.begin_ initX)
+def st2 : St := stOf (each [fileE] (fileSpec PX RX []) st1)
+def st3 : St := stOf (each (valsF.take 1) (valueSpec PX RX [] fileF) st2)
+def st4 : St := stOf (PX.setFile fileF.name st3)
+def rootF : CellId := ((valOf (rootsSpec PX [] (valsF.getD 1 default) st4)).getD []).getD 0 0
+def st5 : St := stOf (rootsSpec PX [] (valsF.getD 1 default) st4)
+def st8 : St := stOf (specialSpec PX (pure rootF) RX.beginFile st5)
+def st9 : St := stOf (PX.setRoot rootF st8)
+def st10 : St := stOf (PX.elements rootF st9)
+def st11 : St := stOf (PX.setDollar rootF st10)
+def st12 : St := stOf (each (RX.pattern.take 2) (ruleSpec PX) st11)
+
+/-- (the hypotheses of `exit_propagates` for the example below, one by one) -/
+theorem hX1 : specialSpec PX (PX.fresh (.nil none)) RX.begin_ initX = .fine () st1 :=
+  fine_of (by decide +kernel)
+theorem hX2 : each [fileE] (fileSpec PX RX []) st1 = .fine () st2 := fine_of (by decide +kernel)
+theorem hX3 : each (valsF.take 1) (valueSpec PX RX [] fileF) st2 = .fine () st3 := fine_of (by decide +kernel)
+theorem hX4 : PX.setFile fileF.name st3 = .fine () st4 := fine_of (by decide +kernel)
+theorem hX5 : rootsSpec PX [] (valsF.getD 1 default) st4 = .fine ([] ++ rootF :: []) st5 :=
+  fineVal_of (by decide +kernel)
+theorem hX8 : specialSpec PX (pure rootF) RX.beginFile st5 = .fine () st8 := fine_of (by decide +kernel)
+theorem hX9 : PX.setRoot rootF st8 = .fine () st9 := fine_of (by decide +kernel)
+theorem hX10 : PX.elements rootF st9 = .fine none st10 := fineVal_of (by decide +kernel)
+theorem hX11 : PX.setDollar rootF st10 = .fine () st11 := fine_of (by decide +kernel)
+theorem hX12 : each (RX.pattern.take 2) (ruleSpec PX) st11 = .fine () st12 := fine_of (by decide +kernel)
+theorem hX13 : ruleSpec PX (RX.pattern.getD 2 default) st12
+    = .over .ok (stOf (ruleSpec PX (RX.pattern.getD 2 default) st12)) := exit_of (by decide +kernel)
+theorem hXvals : PX.values fileF = (valsF.take 1 ++ valsF.getD 1 default :: valsF.drop 2, (PX.values fileF).2) :=
+  Prod.ext (split_getD valsF 1 default (by decide +kernel)) rfl
+theorem hXrules : RX.pattern = RX.pattern.take 2 ++ RX.pattern.getD 2 default :: RX.pattern.drop 3 :=
+  split_getD RX.pattern 2 default (by decide +kernel)
+
+example : ∃ s', scheduleSpec PX RX [] ([fileE] ++ fileF :: []) initX = .over .ok s' :=
+  ⟨_, exit_propagates PX RX [] .ok [fileE] [] fileF
+    (valsF.take 1) (valsF.drop 2) (valsF.getD 1 default) (PX.values fileF).2 hXvals
+    [] [] rootF (RX.pattern.take 2) (RX.pattern.drop 3) (RX.pattern.getD 2 default) hXrules
+    initX st1 st2 st3 st4 st5 st5 st5 st8 st9 st10 st11 st12 (st5.heap.get rootF)
+    hX1 hX2 hX3 hX4 hX5 rfl rfl hX8 hX9 hX10 hX11 hX12 _ hX13⟩
+
+end examples
 
 end Jqawk.C02
